@@ -794,7 +794,8 @@ func (g *Gen) GenNode(depth int, root bool) *Node {
 }
 
 // TimeLayouts are the layouts used with z.Time.Format.
-var TimeLayouts = []string{time.RFC3339, "2006-01-02", time.RFC1123Z, "02/01/2006 15:04", time.RFC3339Nano}
+var TimeLayouts = []string{time.RFC3339, "2006-01-02", time.RFC1123Z, "02/01/2006 15:04", time.RFC3339Nano,
+	"20060102", "2006", "150405", "20060102150405", time.Kitchen, "Jan _2 2006"} // digit-only layouts read like numbers
 
 // BaseKind maps a node kind to the conf.Coercers entry it uses.
 func BaseKind(kind string) string {
